@@ -177,7 +177,10 @@ func runCast(c cast, rounds int, announce bool) (string, castStats) {
 	vk.Guard("C08 "+enc, func() {
 		mats := make([]material, len(c.Workers))
 		solo := runSolo(c, tag, mats)
-		if len(solo.failures) > 0 {
+		if n := len(solo.failures); n > 0 {
+			if n > 6 {
+				solo.failures = append(solo.failures[:6], fmt.Sprintf("... and %d more", n-6))
+			}
 			failure = "a worker misbehaved already when run ALONE (one after the other, nothing else running; state left behind by an earlier worker, or a defect of the pipeline itself):\n  " + strings.Join(solo.failures, "\n  ")
 			return
 		}
